@@ -201,14 +201,20 @@ let dispatch (name : string) (a : string array) : string =
      | "Pump.power_required" -> let n = get_num a in let w = get_bool a in out_num (Pump.power_required fN p q n w)
      | _ -> out_num (Pump.power_available fN p q))
   | "OpPoint.find" ->
+    (* qimin qlast hsys hpump  n {q gap}  m {q at which the gap raises IndexError}  bconv broot hs_b hp_b *)
     let qimin = get_num a in let qlast = get_num a in let hsys = get_num a in let hpump = get_num a in
     let tbl = get_pairs a in
+    let nr = get_int a in
+    let bad = Stdlib.List.init nr (fun _ -> get_num a) in
+    let bconv = get_bool a in let broot = get_num a in let hs_b = get_num a in let hp_b = get_num a in
     let gap q = (match Stdlib.List.find_opt (fun (x, _) -> x = q) tbl with Some (_, f) -> f | None -> raise (Py "Unvisited")) in
-    let (o, vis) = OpPoint.find_operating_point fN gap qimin qlast hsys hpump in
+    let raises q = Stdlib.List.exists (fun x -> x = q) bad in
+    let (o, vis) = OpPoint.find_operating_point fN gap raises qimin qlast hsys hpump bconv broot hs_b hp_b in
     (match o with
      | OpPoint.Ok r -> "root " ^ out_num r
      | OpPoint.OperatingPointError -> "OperatingPointError"
-     | OpPoint.ValueError -> "ValueError") ^ " " ^ out_list "visited" vis
+     | OpPoint.ValueError -> "ValueError"
+     | OpPoint.IndexErr -> "IndexError") ^ " " ^ out_list "visited" vis
   | "Excel.load" ->
     let wb = get_workbook a in
     (match Excel.load fN wb with
